@@ -77,16 +77,6 @@ end Node
 
 /-! ### Python string primitives used by the predicates -/
 
-/-- `str.lower` on ASCII and Latin-1 letters (the harness alphabet stays inside this table and
-checks it against the interpreter on every run) -/
-def lowerChar (c : Char) : Char :=
-  let n := c.toNat
-  if 65 ≤ n ∧ n ≤ 90 then Char.ofNat (n + 32)
-  else if 192 ≤ n ∧ n ≤ 222 ∧ n ≠ 215 then Char.ofNat (n + 32)
-  else c
-
-def lower (s : Str) : Str := s.map lowerChar
-
 /-- `a < b` on str: lexicographic by code point -/
 def strLt : Str → Str → Bool
   | [], [] => false
@@ -138,10 +128,16 @@ def primEval (op : Op) (v arg : Val) : Out :=
   | _, _, _ => .raise          -- TypeError
 
 /-- opaque callables: index ↦ behaviour on a value -/
-abbrev Env := Nat → Val → Out
+structure Env where
+  /-- opaque callables: index ↦ behaviour on a value -/
+  call : Nat → Val → Out
+  /-- Python's `str.lower`.  NOT modelled: Unicode lower-casing (final sigma, 'İ' ↦ two characters, …)
+  stays a parameter; the theorems hold for every function, the driver receives the interpreter's
+  values for the strings of each request from the harness. -/
+  lower : Str → Str
 
 /-- `lhs.lower() if isinstance(lhs, str) else lhs` -/
-def lowerVal : Val → Val
+def lowerVal (lower : Str → Str) : Val → Val
   | .str s => .str (lower s)
   | v => v
 
@@ -160,9 +156,9 @@ deriving Repr
 /-- what the call at a leaf does (`b.func(value, *b.args)`, after the caseless lowering) -/
 def leafOut (ρ : Env) : BExp → Val → Out
   | .prim op arg, v => primEval op v arg
-  | .primI op arg, v => primEval op (lowerVal v) (.str (lower arg))
-  | .opq k false, v => ρ k v
-  | .opq k true, v => ρ k (lowerVal v)
+  | .primI op arg, v => primEval op (lowerVal ρ.lower v) (.str (ρ.lower arg))
+  | .opq k false, v => ρ.call k v
+  | .opq k true, v => ρ.call k (lowerVal ρ.lower v)
   | _, _ => .ret true
 
 /-- `Boolean.test`: every Predicate has its own try/except -/
@@ -226,12 +222,12 @@ def NameQ.eval (ρ : Env) : NameQ → Val → Bool
   | .any, _ => true
   | .lit q, n => decide (n = q)
   | .bexp b, n => b.compiled ρ n
-  | .fn k, n => guard (ρ k n)
+  | .fn k, n => guard (ρ.call k n)
 
 def AttrQ.eval (ρ : Env) : AttrQ → Val → Bool
   | .lit q, v => decide (v = q)
   | .bexp b, v => b.compiled ρ v
-  | .fn k, v => guard (ρ k v)
+  | .fn k, v => guard (ρ.call k v)
 
 /-- `_EntryQuery` objects; `child n a` is `child_query(n, a)` -/
 inductive EQ where
